@@ -709,6 +709,13 @@ fn run_history(
             }
             _ => {}
         }
+        if !adm.is_empty() && args.extra.contains_key("debug-adm") {
+            for f in &adm {
+                if !f.sig19.contains("cache_forgot=true") {
+                    report.note(format!("{} | {} | {:?} | {}", f.sig19, f.detail, h.cfg, h.log.join("\n")));
+                }
+            }
+        }
         if !adm.is_empty() && selftest.is_none() {
             tot.add("histories.cut_after_admission_finding", 1);
             for f in &adm {
@@ -745,15 +752,27 @@ fn main() {
         .extra
         .get("histories-per-shard")
         .and_then(|s| s.parse().ok())
-        .unwrap_or(args.by_tier(300u64, 6000u64));
+        .unwrap_or(args.by_tier(200u64, 5000u64));
     let shards = 64usize;
 
     if let Some(r) = read_replay(&args) {
         let seed = r["seed"].as_u64().unwrap_or(0);
         let iter = r["iteration"].as_u64().unwrap_or(0);
         let shard = r["shard"].as_u64().unwrap_or(0) as usize;
-        run_history(&report, &args, focus, shard, seed, iter, n_ops, selftest);
-        report.note(format!("replayed history seed {seed} iteration {iter}"));
+        // the pool iterates over hash sets with per-instance random order; a few
+        // outcomes (e.g. which of parent/child is committed first) depend on it, so
+        // the same history is re-executed a few times until it shows the violation
+        let mut runs = 0;
+        for _ in 0..24 {
+            runs += 1;
+            run_history(&report, &args, focus, shard, seed, iter, n_ops, selftest);
+            if report.violation_count() > 0 {
+                break;
+            }
+        }
+        report.note(format!(
+            "replayed history seed {seed} iteration {iter} ({runs} executions)"
+        ));
     } else {
         let (r2, a2) = (report.clone(), args.clone());
         run_shards(&report, &args, shards, move |shard, seed| {
@@ -791,61 +810,72 @@ fn thresholds(report: &Report, focus: Focus, selftest: bool) {
         report.require("selftest.perturbations_applied", 10);
         return;
     }
-    report.require("histories", 500);
-    report.require("ops.insert", 20_000);
-    report.require("ops.extract", 2_000);
-    report.require("ops.block", 1_500);
-    report.require("ops.preconf", 500);
-    report.require("ops.preconf_squeezed", 200);
-    report.require("ops.expire", 500);
-    report.require("insert.outcome.inserted", 8_000);
-    report.require("steps.nontrivial", 2_000);
+    // roughly a quarter of what the quick tier (12 800 histories) observes for every seed tried
+    report.require("histories", 12_000);
+    report.require("ops.insert", 150_000);
+    report.require("ops.extract", 12_000);
+    report.require("ops.block", 9_000);
+    report.require("ops.preconf", 4_000);
+    report.require("ops.preconf_squeezed", 2_500);
+    report.require("ops.preconf_stale", 1_200);
+    report.require("ops.expire", 4_000);
+    report.require("insert.outcome.inserted", 50_000);
+    report.require("steps.nontrivial", 8_000);
     match focus {
         Focus::C16 => {
-            report.require("insert.admitted_over_collision", 300);
-            report.require("insert.admitted_with_space_eviction", 100);
-            report.require("pool.full_snapshots", 1_000);
+            report.require("insert.admitted_over_collision", 7_000);
+            report.require("insert.admitted_with_space_eviction", 3_000);
+            report.require("pool.full_snapshots", 20_000);
+            report.require("sink.squeezed_out", 25_000);
         }
         Focus::C17 => {
-            report.require("pool.snapshots_with_dependencies", 10_000);
-            report.require("insert.admitted_with_pool_parent", 2_000);
-            report.require("insert.rejected.Dependency.NotInsertedChainDependencyTooBig", 50);
-            report.require("insert.rejected.Dependency.DependentTransactionIsADiamondDeath", 20);
+            report.require("pool.snapshots_with_dependencies", 100_000);
+            report.require("insert.admitted_with_pool_parent", 20_000);
+            report.require(
+                "insert.rejected.Dependency.NotInsertedChainDependencyTooBig",
+                1_500,
+            );
+            report.require(
+                "insert.rejected.Dependency.DependentTransactionIsADiamondDeath",
+                1_000,
+            );
         }
         Focus::C18 => {
-            report.require("extract.with_2plus_txs", 1_500);
-            report.require("extract.gas_limit_binding", 500);
-            report.require("extract.size_limit_binding", 200);
-            report.require("extract.count_limit_binding", 200);
-            report.require("extract.min_price_binding", 200);
-            report.require("extract.excluded_contract_binding", 30);
-            report.require("extract.with_dependent_tx", 300);
+            report.require("extract.with_2plus_txs", 8_000);
+            report.require("extract.gas_limit_binding", 5_000);
+            report.require("extract.size_limit_binding", 6_000);
+            report.require("extract.count_limit_binding", 4_000);
+            report.require("extract.min_price_binding", 9_000);
+            report.require("extract.excluded_contract_binding", 400);
+            report.require("extract.with_dependent_tx", 2_000);
         }
         Focus::C19 => {
-            report.require("insert.plain_case", 3_000);
-            report.require("insert.admitted_over_collision", 300);
-            report.require("insert.rejected.Collided.Utxo", 300);
-            report.require("insert.rejected.InputValidation.DuplicateTxId", 500);
-            report.require("insert.rejected.UtxoInputWasAlreadySpent", 300);
-            report.require("insert.outcome.pending", 500);
-            report.require("insert.admitted_spending_unsettled_output", 100);
+            report.require("insert.plain_case", 25_000);
+            report.require("insert.admitted_over_collision", 6_000);
+            report.require("insert.rejected.Collided.Utxo", 10_000);
+            report.require("insert.rejected.InputValidation.DuplicateTxId", 20_000);
+            report.require("insert.rejected.UtxoInputWasAlreadySpent", 15_000);
+            report.require("insert.outcome.pending", 20_000);
+            report.require("insert.admitted_spending_unsettled_output", 5_000);
         }
         Focus::C20 => {
-            report.require("block.commits_pooled_tx", 200);
-            report.require("block.commits_handed_out_tx", 1_000);
-            report.require("block.rolls_back_preconfirmed_tx", 300);
-            report.require("block.confirms_preconfirmed_tx", 300);
-            report.require("ops.preconf_stale", 500);
-            report.require("probe.rolled_back_resubmission.accepted", 50);
-            report.require("probe.spend_withdrawn_output.not_accepted", 50);
-            report.require("probe.spend_committed_input.not_accepted", 200);
+            report.require("block.commits_pooled_tx", 3_500);
+            report.require("block.commits_handed_out_tx", 7_000);
+            report.require("block.rolls_back_preconfirmed_tx", 5_000);
+            report.require("block.rollback_with_pooled_dependents", 1_000);
+            report.require("block.confirms_preconfirmed_tx", 4_000);
+            report.require("probe.rolled_back_resubmission.accepted", 1_500);
+            report.require("probe.spend_withdrawn_output.not_accepted", 1_200);
+            report.require("probe.spend_committed_input.not_accepted", 3_000);
+            report.require("probe.spend_stale_preconfirmed_output.not_accepted", 500);
         }
         Focus::C21 => {
-            report.require("sink.squeezed_out", 3_000);
-            report.require("exits.inclusion", 3_000);
-            report.require("exits.non_inclusion.insert", 500);
-            report.require("exits.non_inclusion.expire", 300);
-            report.require("exits.non_inclusion.preconf_squeezed", 100);
+            report.require("sink.squeezed_out", 30_000);
+            report.require("exits.inclusion", 20_000);
+            report.require("exits.non_inclusion.insert", 14_000);
+            report.require("exits.non_inclusion.expire", 13_000);
+            report.require("exits.non_inclusion.preconf_squeezed", 2_500);
+            report.require("exits.non_inclusion.block", 1_000);
         }
     }
 }
